@@ -187,20 +187,29 @@ def run(chk, scratch):
     for si in range(n_seeds):
         for mode in ("collide", "plain", "free"):
             jobs.append((chk.seed * 50 + si, mode, 1 if (si + len(mode)) % 2 else 3))
+    # the colliding reference once more as GFF3 whose transcripts are typed mRNA (an extended annotation passed through a converter)
+    jobs.append((chk.seed * 50, "collide-gff3", 1))
 
     def one(job):
         seed, mode, threads = job
         d = os.path.join(scratch, "w%d_%s" % (seed, mode))
-        w, id_map, exon_ids = make_world(seed, mode == "collide")
+        w, id_map, exon_ids = make_world(seed, mode.startswith("collide"))
         os.makedirs(d)
         w.write_fasta(os.path.join(d, "g.fa"))
         w.write_gtf(os.path.join(d, "a.gtf"), id_map=id_map, exon_ids=exon_ids if mode == "collide" else None)
+        if mode == "collide-gff3":
+            w.write_gff3(os.path.join(d, "a.gff3"), id_map=id_map, exon_ids=exon_ids)
         w.write_bam(os.path.join(d, "r.bam"))
         out = os.path.join(d, "out")
         ev = os.path.join(d, "ev")
         strategy = ["--model_construction_strategy", "sensitive_ont", "--report_novel_unspliced", "true"]
         if (seed + threads) % 2 == 0:
             strategy += ["--polya_requirement", "never"]      # clusters without tails yield models too (a reference isoform seen from two clusters)
+        if mode == "collide-gff3":
+            a_ = pipeline.std_args(d, out, threads=threads, extra=strategy)
+            a_[a_.index("-g") + 1] = os.path.join(d, "a.gff3")
+            r = runner.run_isoquant(a_, os.path.join(d, "home"), mon=["ids"], events=ev)
+            return job, d, w, id_map, exon_ids, out, ev, r
         r = pipeline.run(d, out, threads=threads, annotated=(mode != "free"), extra=strategy, mon=["ids"], events=ev)
         return job, d, w, id_map, exon_ids, out, ev, r
     total_twice = 0
@@ -217,7 +226,7 @@ def run(chk, scratch):
             chk.violation("run-failed:" + mode, "run failed (%s): %s" % (desc, pipeline.fail_text(r)), wit)
             continue
         o = pipeline.Outputs(out)
-        twice, novel, nex = check_outputs(chk, o, w, id_map, exon_ids if mode == "collide" else {}, mode != "free", wit, desc)
+        twice, novel, nex = check_outputs(chk, o, w, id_map, exon_ids if mode.startswith("collide") else {}, mode != "free", wit, desc)
         total_twice += twice
         total_novel += novel
         log_calls += check_log(chk, runner.load_events(ev), wit, desc)
